@@ -48,15 +48,14 @@ def staged(jobs, stride=1, kinds=("solve",), cuts="alt"):
     meaning of the finished problem is that of the one-stage build, so the same oracle applies; what the variant adds
     is every piece of state that a first solver - or anything read while the problem was incomplete - leaves in the
     problem, its tasks or its resources. cuts="alt": one cut per program, alternating between the middle and the
-    position before the last declaration; cuts="all": every position. Programs with objectives are skipped (recorded
-    finding C13: initialize() registers the equivalent objective in the problem)."""
+    position before the last declaration; cuts="all": every position."""
     import copy
 
     out = []
     n = 0
     for j in jobs:
         decls = j["program"]["decls"]
-        if len(decls) < 2 or any(d.get("cls", "").startswith("Objective") for d in decls if d["k"] == "new"):
+        if len(decls) < 2:
             continue
         n += 1
         if n % stride:
